@@ -1,0 +1,28 @@
+//go:build verif
+
+package lsp
+
+import (
+	lsp "pkg.nimblebun.works/go-lsp"
+	"src.elv.sh/pkg/diag"
+)
+
+// Verification hooks for property C44 (add-only; compiled only with -tags
+// verif). They expose the unexported offset/position conversions unchanged.
+
+// VerifC44PositionToIdx is lspPositionToIdx.
+func VerifC44PositionToIdx(s string, line, character int) int {
+	return lspPositionToIdx(s, lsp.Position{Line: line, Character: character})
+}
+
+// VerifC44PositionFromIdx is lspPositionFromIdx.
+func VerifC44PositionFromIdx(s string, idx int) (line, character int) {
+	p := lspPositionFromIdx(s, idx)
+	return p.Line, p.Character
+}
+
+// VerifC44RangeFromRange is lspRangeFromRange on the range [from, to).
+func VerifC44RangeFromRange(s string, from, to int) (sl, sc, el, ec int) {
+	r := lspRangeFromRange(s, diag.Ranging{From: from, To: to})
+	return r.Start.Line, r.Start.Character, r.End.Line, r.End.Character
+}
